@@ -109,7 +109,7 @@ def world_validate(ctx, prop, trace, nt, nd, what):
                     % (res["violated"], what, res["l"]), rp)
 
 
-def world_s2i(ctx, prop, replay_path, variants, label):
+def world_s2i(ctx, prop, replay_path, variants, label, defer=None):
     """spec -> impl: every emitted behaviour on a real World, compared after every call."""
     out = ctx.fresh("ws2i", "ndjson")
     t0 = time.time()
@@ -129,7 +129,10 @@ def world_s2i(ctx, prop, replay_path, variants, label):
         os.remove(replay_path)
     except OSError:
         pass
-    world_validate(ctx, prop, out, 2, 2, "replay")
+    if defer is not None and not st["disagree"]:
+        defer.append(out)            # validated together with the other 2x2 traces (one TLC start)
+    else:
+        world_validate(ctx, prop, out, 2, 2, "replay")
     if st["disagree"]:
         # the real World left the model, but not in a way this property's predicate forbids
         other = "C09" if prop == "C08" else "C08"
@@ -156,7 +159,7 @@ def world_random(ctx, prop, blocks, length, seed_off=0):
     return st
 
 
-def world_threads(ctx, prop, blocks, rounds, ops, seed_off=0):
+def world_threads(ctx, prop, blocks, rounds, ops, seed_off=0, defer=None):
     out = ctx.fresh("wthr", "ndjson")
     st = run_bin(ctx, "world", ["threads", "--out", out, "--blocks", blocks, "--rounds", rounds, "--ops", ops,
                                 "--seed", ctx.seed * 1000 + 500 + seed_off, "--ntypes", 2, "--ndyns", 2, "--maxthreads", 8],
@@ -168,28 +171,33 @@ def world_threads(ctx, prop, blocks, rounds, ops, seed_off=0):
     if st["samples"]:
         ctx.sample({"kind": "start of a multi-thread history (call before / ret after each real operation)",
                     "events": st["samples"][0][:8]})
-    world_validate(ctx, prop, out, 2, 2, "threads")
+    if defer is not None:
+        defer.append(out)
+    else:
+        world_validate(ctx, prop, out, 2, 2, "threads")
     ctx.cov["traces_validated_against_impl"] += st["blocks"]
     return st
 
 
 def world_family(ctx, prop):
     q = ctx.quick()
+    small = []          # traces over 2 types x 2 dynamic ids, validated by ONE TLC run at the end
     # (1) all histories within the bound: state predicate + outcome rules on every transition
     world_mc(ctx, prop, steps=5 if q else 6, view="MCView2", label="exhaustive")
     # (2) spec -> impl
     r = world_mc(ctx, prop, steps=3 if q else 4, view="MCView", emit_from=1, label="emit-exhaustive")
-    world_s2i(ctx, prop, r["replay"], variants=2, label="every (state, call, outcome) within %d calls" % (3 if q else 4))
+    world_s2i(ctx, prop, r["replay"], variants=2, label="every (state, call, outcome) within %d calls" % (3 if q else 4), defer=small)
     # guard-heavy histories: 2 well-typed inserts, then only &self calls and guard operations
     n = 5 if q else 7
     r = world_mc(ctx, prop, steps=n, view="MCView", emit_from=n, phase=2, label="emit-borrow-phase")
-    world_s2i(ctx, prop, r["replay"], variants=1, label="2 inserts + every (state, &self call, outcome) within %d calls" % (n - 2))
+    world_s2i(ctx, prop, r["replay"], variants=1, label="2 inserts + every (state, &self call, outcome) within %d calls" % (n - 2),
+              defer=small)
     if not q:
         # long behaviours chosen by TLC's simulator (it evaluates Emit on every successor of the last
         # step, so each of the 4 x 40 random walks yields a bundle of sibling behaviours)
         r = world_mc(ctx, prop, steps=12, view="MCView", emit_from=12, shapes="ShapesOpt", guards=4, simulate=40,
                      label="emit-simulation", workers=4)
-        world_s2i(ctx, prop, r["replay"], variants=1, label="simulated behaviours of 12 calls")
+        world_s2i(ctx, prop, r["replay"], variants=1, label="simulated behaviours of 12 calls", defer=small)
     # (3) impl -> spec
     if q:
         world_random(ctx, prop, blocks=24, length=250)
@@ -199,10 +207,17 @@ def world_family(ctx, prop):
     if prop == "C08":
         world_cell_mc(ctx, threads=3, maxops=3 if q else 4)
         if q:
-            world_threads(ctx, prop, blocks=8, rounds=5, ops=24)
+            world_threads(ctx, prop, blocks=8, rounds=5, ops=24, defer=small)
         else:
             for k in range(4):
                 world_threads(ctx, prop, blocks=25, rounds=8, ops=40, seed_off=k)
+    if small:
+        merged = ctx.fresh("wsmall", "ndjson")
+        with open(merged, "w") as f:
+            for x in small:
+                with open(x) as g:
+                    f.write(g.read())
+        world_validate(ctx, prop, merged, 2, 2, "replay+threads" if prop == "C08" and q else "replay")
     ctx.cov["exhaustive"] = False
     ctx.assumptions += [
         "TLC explores World.tla exhaustively only within the stated constants (2 types x 2 dynamic ids, <= 3 live guards, "
